@@ -131,7 +131,7 @@ def loadtxt(
         keys = groups[1].split(",")
         shape = [int(idx) for idx in groups[2].split(",") if idx]
         dtype = numpy.dtype([(key, array.dtype) for key in keys])
-        struct = unstructured_to_structured(array, dtype)
+        struct = unstructured_to_structured(array.reshape(-1, len(keys)), dtype)
         array = numpoly.polynomial(struct, names=names)
         array = numpoly.reshape(array, shape)
 
